@@ -38,6 +38,10 @@ claimed = {
          "Five exhaustively enumerated layers (23 M inputs quick): the lexical spaces of C02; every statement tree of <= 3 statements over 81 keywords under module/submodule/top level; cross-reference programs of 1-3 files whose typedefs, groupings, identities, leaves, augments, deviations, imports and includes refer to themselves, each other, undefined names, unknown prefixes and wrong-kind targets, in all load orders; every single-statement edit of 14 seed files. Each input runs through yang.Parse, Modules.Parse, Process and, when clean, ToEntry, GetErrors, a full walk and Find from every node. A panic is caught and reported with the goyang function that raised it; a fatal error (stack overflow, concurrent map access) or a hang kills only the worker and is attributed to the announced case.",
          "Trusted: process isolation (SetMaxStack 32 MiB, 40 s per-case watchdog). Trees are read only after a clean Process. Inputs beyond the bounded layers are not covered.",
          "DESIGN.md §3 C01"),
+ "C18": ("exhaustive exploration of operation histories on the real Modules value vs. batch runs",
+         "Every history of 6 (thorough 7) operations over {process, read, load(t)} for a pool of 10 interacting texts (cross-module typedef/identity/grouping/augment/deviation, a module with semantic errors, module + submodule, syntax error, unknown statement after typedefs and identities were built, missing mandatory substatement, re-load, different text for a loaded module name) - 249 k histories quick - is executed on one real Modules value. Each load's verdict is predicted; after every process the canonical dump (all exported attributes incl. positions) or the error list must equal that of a fresh set given the successfully loaded texts once each in the same order and processed once.",
+         "Trusted: the dump (exported API only) and the batch run as reference. Texts declare one module each.",
+         "DESIGN.md §3 C18"),
 }
 pending_reason = "check not built yet in this session (see DESIGN.md §12 build order); it will be claimed once its harness exists and is quiet on the unchanged tree"
 not_applicable_reasons = {}
